@@ -26,7 +26,9 @@ fn vdp(mu: f64) -> Prob {
 }
 
 fn problems() -> Vec<(Prob, f64)> {
-    vec![(base(Base::Decay(-0.01)), 10.0), (base(Base::Harmonic(1.0)), 6.0), (base(Base::Logistic(1.0)), 5.0)]
+    // the last one over a span of 1e-6: every max_step of the lattice is then below the absolute
+    // default initial steps of the implicit solvers
+    vec![(base(Base::Decay(-0.01)), 10.0), (base(Base::Harmonic(1.0)), 6.0), (base(Base::Logistic(1.0)), 5.0), (base(Base::Harmonic(1.0)), 1e-6)]
 }
 
 /// abscissa fraction of the first stage evaluated after the initial ones
@@ -195,12 +197,20 @@ pub fn run_check(replay: Option<Value>) -> i32 {
                 if p0.name.starts_with("vanderpol") && (backward || (!is_implicit(*m) && *m != Method::DOPRI5)) {
                     continue;
                 }
+              for long_first in [false, true] {
+                if long_first && *m == Method::RK4 {
+                    continue;
+                }
                 let p = if backward { reflect(p0) } else { p0.clone() };
                 let xend = if backward { -*span } else { *span };
                 let mut c = Cfg::new(*m, 0.0, xend, &p.y0).tol(*tol, tol * 1e-2);
                 c.user_jac = true;
                 if *m == Method::RK4 {
                     c.first_step = Some(xend / 40.0);
+                }
+                if long_first {
+                    // a first step far too long for the tolerance: the run starts with rejections
+                    c.first_step = Some(xend / 2.0);
                 }
                 let full = run(&p, &c);
                 let fs = match full.sol() {
@@ -211,8 +221,8 @@ pub fn run_check(replay: Option<Value>) -> i32 {
                     }
                 };
                 let nb = fs.nstep + 2;
-                let gkey = format!("budget:{}.{}.{}", mi, backward as u8, pi);
-                groups.push(json!({"group": gkey, "method": mname(*m), "problem": p.name, "backward": backward, "rtol": tol, "nstep_full": fs.nstep, "budgets": nb}));
+                let gkey = format!("budget:{}.{}.{}{}", mi, backward as u8, pi, if long_first { ".L" } else { "" });
+                groups.push(json!({"group": gkey, "method": mname(*m), "problem": p.name, "backward": backward, "rtol": tol, "first_step": if long_first { "span/2 (start-up rejections)" } else { "automatic" }, "nstep_full": fs.nstep, "nrejct_full": fs.nrejct, "budgets": nb}));
                 let outs = par_map(nb, |bi| {
                     let b = bi + 1;
                     let key = format!("{}:{}", gkey, b);
@@ -261,6 +271,7 @@ pub fn run_check(replay: Option<Value>) -> i32 {
                     Some(out)
                 });
                 rep.absorb(outs.into_iter().flatten().collect());
+              }
             }
         }
     }
